@@ -81,10 +81,11 @@ TECHNIQUE["C14"] = "explicit-state BFS from dirty from_raw_parts seeds, read-equ
 PROPS["C05"] = dict(
     level="model_checking",
     engine="E2",
-    parts=[dict(bin="e2_bfv", opts={"prop": "C05"}, tag="clean")],
+    parts=[dict(bin="e2_bfv", opts={"prop": "C05"}, tag="clean"),
+           dict(bin="e2_bfv", opts={"prop": "C05", "words": "u32,u64,u128", "depth": 2}, tag="clean-other-words", tiers=["quick"])],
     rule="BFS over operation histories, one search per (word type, bit width, seed, first operation); a unit is non-trivial when its start state has a partially used last word, spare words, or an element crossing a word boundary",
     alphabet="push(v) pop set(i,v) resize(n,v) clear extend([v,v']) reset par_reset apply_in_place(x+1 & mask); set through Box, &mut [W], AtomicBitFieldVec (Vec and Box); atomic reset/par_reset; values {0,1,top bit,mask>>1,mask,0101..}; indices {0,1,k-1,k,k+1,len-1}, lengths {0,1,k-1,k,k+1,2k+1}, k = first element crossing a word; rejected: set/get at len,len+1,MAX/2, iter_from(len+1), set/push/resize/set_atomic with mask+1 and MAX; seeds new / new+set(pattern) / with_capacity+push / new_unaligned / with_capacity / from_slice",
-    bound={"quick": "all histories of <= 3 operations; W in {u8,u16,usize} x 6 widths each (incl. 0 and W::BITS)", "thorough": "all histories of <= 4 operations; u8 and u16 all widths, u32 10 widths, u64/usize 16 widths, u128 7 widths"},
+    bound={"quick": "all histories of <= 3 operations for W in {u8,u16,usize} x 6 widths each (incl. 0 and W::BITS); all histories of <= 2 operations for u32 (10 widths), u64 (16 widths), u128 (7 widths)", "thorough": "all histories of <= 4 operations; u8 and u16 all widths, u32 10 widths, u64/usize 16 widths, u128 7 widths"},
     oracle="in every state: len, bit_width, mask, get(i) all i, iter, into_iter, iter_from(j) all j with exact len()/size_hint before every next, forward unchecked iterator from every j, reverse unchecked iterator from every j, ==/!= against fresh equal / one-element-different / other-width / longer / garbage-beyond-len vectors, from_slice into u128 and u8, boxed and slice-backed reads, atomic reads; rejected operations panic and leave raw parts unchanged; on every transition: return value, callback sequence of apply_in_place, footprint on raw words",
     assumptions=STRICT + ["state key = (backing words, len) per (W, width)"],
     mc_note=MC_NOTE,
